@@ -261,12 +261,13 @@ def run_check(tier, seed):
         #      (ncmpio_intra_node.c) - a second implementation of the write path that only runs with the hint
         #      nc_num_aggrs_per_node in 1..nprocs-1 on >= 2 ranks.  Larger strided collective writes to fixed and record
         #      variables of up to 3 different dimension lengths, ranks with empty contributions, several requests per wait.
-        nD = 60 if tier == 'thorough' else 14
+        nD = 80 if tier == 'thorough' else 20
         for k in range(nD if nfail < 3 else 0):
             nprocs = rng.choice([2, 3, 4])
             ag = 'nc_num_aggrs_per_node=%d' % rng.range(1, nprocs - 1)
-            if k % 3 == 2:
-                p = apigen.gen_mix_program(rng, 'c10d_%d.nc' % k, nprocs, hints=ag)
+            if k % 2 == 1:
+                # nonblocking requests go through a second flattening routine (flatten_reqs) at wait_all time
+                p = apigen.gen_mix_program(rng, 'c10d_%d.nc' % k, nprocs, hints=ag, focus=[None, 'recvarn', None, 'burst'][(k // 2) % 4])
             else:
                 p = apigen.gen_rw_program(rng, 'c10d_%d.nc' % k, nprocs, hints=ag, big=True)
             text = p.text()
